@@ -402,18 +402,88 @@ func ruleC18View(c *Ctx) {
 	fn := p.SSAFunc(p.Method("boltz", "DbImpl", "View"))
 	name := FnName(fn)
 	c.Analysed(name)
-	view := p.ExtMethod(bboltPath, "DB", "View")
-	var vcall ssa.CallInstruction
-	for _, call := range callsIn(fn) {
-		if isCallTo(call, view) {
-			vcall = call
+	// the bolt View entry that receives the caller's callback: in View itself or in a closure nested in
+	// it (the lock side of it is decided by C17.LOCK's handle rule, which this property runs as well)
+	ff := p.FuncFlow()
+	var vsite *txSite
+	for _, site := range txSites(c) {
+		if !site.Kinds["View"] {
+			continue
 		}
+		root := site.Outer
+		for root.Parent() != nil {
+			root = root.Parent()
+		}
+		if root != fn {
+			continue
+		}
+		s := site
+		vsite = &s
 	}
-	ok := vcall != nil && len(vcall.Common().Args) == 2 && vcall.Common().Args[1] == ssa.Value(fn.Params[1])
+	ok := false
+	if vsite != nil {
+		last := vsite.Call.Common().Args[len(vsite.Call.Common().Args)-1]
+		// the callback is the function parameter of View (possibly captured by the nested closure)
+		var isParam func(v ssa.Value, depth int) bool
+		isParam = func(v ssa.Value, depth int) bool {
+			if depth > 4 {
+				return false
+			}
+			switch x := v.(type) {
+			case *ssa.Parameter:
+				return x == fn.Params[1]
+			case *ssa.FreeVar:
+				return isParam(ff.binding[x], depth+1)
+			case *ssa.UnOp:
+				if al, isAl := x.X.(*ssa.Alloc); isAl {
+					for _, r := range *al.Referrers() {
+						if st, isSt := r.(*ssa.Store); isSt && st.Addr == ssa.Value(al) && isParam(st.Val, depth+1) {
+							return true
+						}
+					}
+				}
+				if fv, isFV := x.X.(*ssa.FreeVar); isFV {
+					return isParam(ff.binding[fv], depth+1)
+				}
+			case *ssa.Alloc:
+				for _, r := range *x.Referrers() {
+					if st, isSt := r.(*ssa.Store); isSt && st.Addr == ssa.Value(x) && isParam(st.Val, depth+1) {
+						return true
+					}
+				}
+			}
+			return false
+		}
+		ok = isParam(last, 0)
+	}
 	c.Check(ok, "C18.VIEW", name+": callback runs in a bolt read transaction", p.Pos(fn.Pos()), "the caller's function is handed to bbolt DB.View unchanged", "View does not run the callback through bbolt DB.View")
 	if ok {
-		held := lockHeldAt(p, fn, vcall, "RLock", "RUnlock")
-		c.Check(held, "C18.VIEW", name+": under reload read-lock", p.Pos(vcall.Pos()), "reloadLock.RLock() precedes and a deferred RUnlock covers the bolt call", "the bolt read transaction is not entered under reloadLock.RLock (a concurrent restore can swap the database underneath)")
+		held := false
+		if vsite.Outer == fn {
+			held = lockHeldAt(p, fn, vsite.Call, "RLock", "RUnlock")
+		} else {
+			// entered inside a closure: the lock must be held where that closure is invoked
+			held = true
+			n := 0
+			for _, f2 := range ff.funcs {
+				for _, call := range callsIn(f2) {
+					cc := call.Common()
+					if cc.IsInvoke() || cc.StaticCallee() != nil {
+						continue
+					}
+					for _, t := range ff.Resolve(cc.Value, 0) {
+						if t == vsite.Outer {
+							n++
+							if !lockHeldAt(p, call.Parent(), call, "RLock", "RUnlock") {
+								held = false
+							}
+						}
+					}
+				}
+			}
+			held = held && n > 0
+		}
+		c.Check(held, "C18.VIEW", name+": under reload read-lock", p.Pos(vsite.Call.Pos()), "reloadLock.RLock() precedes and a deferred RUnlock covers the bolt call", "the bolt read transaction is not entered under reloadLock.RLock (a concurrent restore can swap the database underneath)")
 	}
 }
 
